@@ -76,6 +76,7 @@ func runC02(w *W) {
 		// ones the library grows - ends at an unmapped page, so that the overflow faults instead of corrupting the heap
 		NoBinary: !t.Chance(1, 5, "sch.binary")}
 	so.SplitFiles = t.Chance(1, 4, "sch.split")
+	so.Typedefs, so.ZeroID = t.Chance(1, 3, "sch.typedefs"), t.Chance(1, 4, "sch.zeroid")
 	w.World.GuardGrowth = !so.NoBinary
 	// deep worlds: long chains of nested structs with wide requires-bitmaps over a small bitmap arena, so
 	// that one conversion outgrows the arena several times while outer levels are still open
